@@ -211,7 +211,7 @@ def run_tasks(ll, tasks, jobs=None, seed=0, budget_s=None):
     # long tasks first if they say so
     order.sort(key=lambda t: -t.kw.get('_weight', 1))
     args = [(ll, t.name, t.fn, {k: v for k, v in t.kw.items() if not k.startswith('_')}) for t in order]
-    jobs = jobs or min(16, os.cpu_count() or 4, max(1, len(args)))
+    jobs = jobs or min(int(os.environ.get('SEIR_JOBS', '16')), os.cpu_count() or 4, max(1, len(args)))
     results = []
     if jobs == 1 or len(args) == 1:
         for a in args:
